@@ -60,6 +60,15 @@ def printTty (M : Mods) (modcount : Nat) : List Nat :=
     esc "[1;47m" ++ sp 2 ++ esc "[0m" ++ [10]) ++
   frameLine
 
+/-- `print_ascii` including its tty check: with `tty=True` on a stream that is not a tty it raises OSError before compiling or
+    writing anything -/
+def printAsciiOut (M : Mods) (modcount border : Nat) (tty invert isatty : Bool) : Except Err (List Nat) :=
+  if tty && !isatty then .error .osError else .ok (printAscii M modcount border tty invert)
+
+/-- `print_tty` including its tty check -/
+def printTtyOut (M : Mods) (modcount : Nat) (isatty : Bool) : Except Err (List Nat) :=
+  if !isatty then .error .osError else .ok (printTty M modcount)
+
 /-! ### raster geometry (image/base.py, pure.py, pil.py) -/
 
 /-- `BaseImage.pixel_size` -/
